@@ -180,11 +180,15 @@ func spaces(quick bool) []*Space {
 	// times, e.g. fetched from the API): the regime follows from the absence of Committed, not
 	// from the calendar
 	late := func(s *Space) *Space { s.Start = time.Date(2014, 3, 1, 12, 0, 0, 0, time.UTC); return s }
+	// a child deleted and created again inside one upload (one changeset)
+	blink := func(s *Space) *Space { s.Blink = true; return s }
 	if quick {
 		return []*Space{
 			// --- boundary classes
 			late(pre("way2", 3, m, all, 2*h, 0)),
 			late(inter(odd(pre("rel3", 2, 30*m, all, 2*h, 0)))),
+			blink(commit("way2", 3, false, h)),
+			blink(odd(commit("rel3", 2, false, h, 100*ms))),
 			zeros(commit("way2x", 3, true, h, 100*ms)),
 			zeros(pre("way2x", 3, m, all, 2*h, 0)),
 			pre("way2", 3, 0, []int{0}, 2*h, 0), // no skew at all: Threshold(0) is inside the domain
@@ -207,6 +211,8 @@ func spaces(quick bool) []*Space {
 	return []*Space{
 		// --- boundary classes
 		late(pre("way2", 4, m, all, 2*h, 0)),
+		blink(commit("way2", 4, true, h, 100*ms)),
+		blink(odd(commit("rel3", 3, false, h, 100*ms))),
 		late(inter(pre("way2", 3, m, all, 2*h, 10*m, 0))),
 		late(inter(odd(pre("rel3", 3, 30*m, all, 2*h, 0)))),
 		zeros(commit("way2x", 4, true, h, 100*ms)),
